@@ -98,6 +98,54 @@ Definition i_plan_pending (s : state) : bool :=
 Definition i_wf_not_started (s : state) : bool :=
   negb (status_eqb (w_status s) NOT_STARTED) || all_stages s (fun _ st => status_eqb (s_status st) NOT_STARTED).
 
+(* ---- message-related candidates (towards the token invariant) ---- *)
+Definition unprocessed (s : state) (r : qrow) : bool := negb (mem_nat (q_id r) (w_processed s)).
+
+(* I14: an unprocessed StartTask for a NOT_STARTED task: no task of that stage is RUNNING or SUSPENDED *)
+Definition i_start_task_exclusive (s : state) : bool :=
+  forallb (fun r => match q_msg r with
+                    | MStartTask i t =>
+                        negb (unprocessed s r) ||
+                        match get_stage s i with
+                        | Some st => match nth_error (s_tasks st) t with
+                                     | Some tk => negb (task_is NOT_STARTED tk) ||
+                                                  negb (existsb (fun x => task_is RUNNING x || task_is SUSPENDED x) (s_tasks st))
+                                     | None => true end
+                        | None => true end
+                    | _ => true end) (w_queue s).
+
+(* I15: an unprocessed CompleteStage for a RUNNING stage: no task NOT_STARTED or RUNNING *)
+Definition i_complete_stage_msg (s : state) : bool :=
+  forallb (fun r => match q_msg r with
+                    | MCompleteStage i =>
+                        negb (unprocessed s r) ||
+                        match get_stage s i with
+                        | Some st => negb (status_eqb (s_status st) RUNNING) ||
+                                     negb (existsb (fun x => task_is RUNNING x || task_is NOT_STARTED x) (s_tasks st))
+                        | None => true end
+                    | _ => true end) (w_queue s).
+
+(* I16: a NOT_STARTED stage has no unprocessed task-level or CompleteStage message (false once jumps re-arm stages) *)
+Definition i_not_started_no_msgs (s : state) : bool :=
+  forallb (fun r => negb (unprocessed s r) ||
+                    match q_msg r with
+                    | MStartTask i _ | MRunTask i _ | MCompleteTask i _ _ | MCompleteStage i =>
+                        match get_stage s i with Some st => negb (status_eqb (s_status st) NOT_STARTED) | None => true end
+                    | _ => true end) (w_queue s).
+
+(* I17 (token): every RUNNING task has an unprocessed RunTask / CompleteTask / PauseTask / JumpToStage message
+   (false between a crash and the next recovery sweep) *)
+Definition i_running_task_token (s : state) : bool :=
+  all_stages s (fun i st =>
+    forallb (fun p => negb (task_is RUNNING (snd p)) ||
+                      existsb (fun r => unprocessed s r &&
+                                        match q_msg r with
+                                        | MRunTask a b | MCompleteTask a b _ | MPauseTask a b => (a =? i) && (b =? fst p)
+                                        | MJumpToStage a _ _ _ => a =? i
+                                        | _ => false end) (w_queue s))
+            (combine (seqn (length (s_tasks st))) (s_tasks st))).
+
 Definition inv_clauses (s : state) : list bool :=
   [i_running_task s; i_not_started_stage s; i_suspended s; i_start_task_msg s; i_sequential s; i_one_active s;
-   i_complete_stage s; i_ids s; i_started_flag s; i_mutex s; i_choice s; i_plan_pending s; i_wf_not_started s].
+   i_complete_stage s; i_ids s; i_started_flag s; i_mutex s; i_choice s; i_plan_pending s; i_wf_not_started s;
+   i_start_task_exclusive s; i_complete_stage_msg s; i_not_started_no_msgs s; i_running_task_token s].
